@@ -196,6 +196,201 @@ def case_split_tail(rng, kind, cfg_len=8192):
     return "%s S0=t.tf.a.s,f.v.i ; %s" % (kind, h.text())
 
 
+def case_many_series(rng, kind):
+    """thousands of series in one part (more than one PRIMARY block of block metadata), two parts with different time
+    ranges, flush/merge, queries over sub-ranges: the part-level min/max timestamps decide whether getParts keeps the part"""
+    n = rng.choice([3000, 4500, 6000])
+    few = rng.choice([10, 40])
+    t1, t2 = rng.choice([(100, 200), (200, 100), (-50, 1000)])
+    small = [Row(s, t1, 1, ["s41", "i%d" % s]) for s in range(1, few + 1)]
+    large = [Row(s, t2, 1, ["s42", "i%d" % (100000 + s)]) for s in range(1, n + 1)]
+    order = [small, large] if rng.random() < 0.5 else [large, small]
+    lo, hi = min(t1, t2), max(t1, t2)
+    probe = sorted(rng.sample(range(1, few + 1), 5)) + [n - 1, n]
+    qs = [(0, probe, t1 - 50, t1 + 50 if abs(t1 - t2) > 50 else t1, "ta"), (0, probe, t2, t2, "s"), (0, probe, lo - 1, hi + 1, "td"),
+          (0, list(range(1, few + 1)), t1, t1, "ta")]
+    h = Hist(rng)
+    for rows in order:
+        h.batch(0, rows)
+    issue(h, qs)
+    h.flush(list(h.mem))
+    issue(h, qs)
+    h.merge(list(h.file))
+    issue(h, qs)
+    if rng.random() < 0.5:
+        h.batch(0, [Row(s, hi + 500, 1, ["s43", "i%d" % (200000 + s)]) for s in range(n - 20, n + 1)])
+        h.flush(list(h.mem))
+        h.merge(list(h.file))
+        issue(h, qs)
+    return "%s S0=t.tf.a.s,f.v.i ; %s" % (kind, h.text())
+
+
+# ----------------------------------------------------------------------------------------------
+# ordered secondary index (banyand/internal/sidx) through its public interface
+
+def sidx_parse(line):
+    """-> list of ops: ("W", pid, range|None, [(sid, key, data, ts)]) | ("F", [pids]) | ("M", newpid, [pids]) | ("Q", q)"""
+    toks = line.split()
+    segs, cur = [], []
+    for t in toks[1:]:
+        if t == ";":
+            segs.append(cur)
+            cur = []
+        else:
+            cur.append(t)
+    segs.append(cur)
+    ops = []
+    for op in segs[1:]:
+        n = op[0]
+        if n[0] == "W":
+            rng_ = None if op[1] == "*" or op[2] == "*" else (int(op[1]), int(op[2]))
+            es = []
+            for e in op[3:]:
+                p = e.split(":")
+                es.append((int(p[0]), int(p[1]), p[2], int(p[3])))
+            ops.append(("W", int(n[1:]), rng_, es))
+        elif n == "F":
+            ops.append(("F", [int(x) for x in op[1].split(",")]))
+        elif n[0] == "M":
+            ops.append(("M", int(n[1:]), [int(x) for x in op[1].split(",")]))
+        elif n == "Q":
+            o = lambda x: None if x == "*" else int(x)
+            ops.append(("Q", (op[1], o(op[2]), o(op[3]), o(op[4]), o(op[5]), tuple(sorted(int(x) for x in op[6].split(","))))))
+    return ops
+
+
+def case_sidx(rng, kind="sidx"):
+    sids = rng.sample([1, 2, 3, 9], rng.choice([1, 2, 3]))
+    keys = rng.sample(range(-5, 40), rng.randint(2, 10))
+    tss = sorted(rng.sample(range(0, 1000, 50), rng.randint(2, 8)))
+    uid = [0]
+    ops = []
+    mem, filep, nextpid = [], [], [1]
+
+    def queries():
+        qs = []
+        for _ in range(rng.randint(2, 4)):
+            a, b = sorted([rng.choice(keys), rng.choice(keys)])
+            k1, k2 = ("*", "*") if rng.random() < 0.3 else (a, b)
+            r = rng.random()
+            if r < 0.3:
+                t1, t2 = "*", "*"
+            else:
+                x, y = sorted([rng.choice(tss) + rng.choice([-10, 0, 10]), rng.choice(tss) + rng.choice([-10, 0, 10])])
+                t1, t2 = x, y
+            ss = rng.sample(sids, rng.randint(1, len(sids)))
+            qs.append("Q %s %s %s %s %s %s" % (rng.choice(["asc", "desc"]), k1, k2, t1, t2, ",".join(map(str, ss))))
+        return qs
+    regs = queries()
+    for _ in range(rng.randint(2, 5)):
+        es = []
+        lo = rng.randrange(len(tss))
+        window = tss[lo:lo + rng.randint(1, 4)]
+        for _ in range(rng.randint(1, 8)):
+            uid[0] += 1
+            es.append((rng.choice(sids), rng.choice(keys), ("d%d" % uid[0]).encode().hex(), rng.choice(window)))
+        r = rng.random()
+        if r < 0.2:
+            tr = ("*", "*")
+        elif r < 0.85:
+            tr = (min(e[3] for e in es), max(e[3] for e in es))
+        else:
+            tr = (min(e[3] for e in es) - rng.choice([0, 100]), max(e[3] for e in es) + rng.choice([0, 100]))
+        pid = nextpid[0]
+        nextpid[0] += 1
+        ops.append("W%d %s %s %s" % (pid, tr[0], tr[1], " ".join("%d:%d:%s:%d" % e for e in es)))
+        mem.append(pid)
+        ops += regs
+        if rng.random() < 0.5 and mem:
+            sel = rng.sample(mem, rng.randint(1, len(mem)))
+            ops.append("F " + ",".join(map(str, sel)))
+            for x in sel:
+                mem.remove(x)
+                filep.append(x)
+            ops += regs
+        if rng.random() < 0.5 and filep:
+            sel = rng.sample(filep, rng.randint(1, min(len(filep), 8)))
+            pid = nextpid[0] + 100
+            nextpid[0] += 1
+            ops.append("M%d %s" % (pid, ",".join(map(str, sel))))
+            for x in sel:
+                filep.remove(x)
+            filep.append(pid)
+            ops += regs
+    if mem:
+        ops.append("F " + ",".join(map(str, mem)))
+        filep += mem
+        ops += regs
+    while len(filep) > 1 and rng.random() < 0.8:
+        sel = rng.sample(filep, rng.randint(2, min(len(filep), 8)))
+        pid = nextpid[0] + 100
+        nextpid[0] += 1
+        ops.append("M%d %s" % (pid, ",".join(map(str, sel))))
+        for x in sel:
+            filep.remove(x)
+        filep.append(pid)
+        ops += regs
+    return "%s ; %s" % (kind, " ; ".join(ops))
+
+
+def sidx_oracle(line, g):
+    ops = sidx_parse(line)
+    outs = base.split_out(g)
+    if len(outs) != len(ops):
+        return ("violation", "driver output does not match the ops: " + g[:200])
+    elems = []          # everything written so far
+    last = {}           # query -> set of returned tokens since the last write
+    ranged_all = True
+    for op, o in zip(ops, outs):
+        if o.startswith("PANIC") or o.startswith("CRASH") or o in ("ERR", "bad-op"):
+            return ("violation", "sidx operation failed: " + o[:200])
+        if op[0] == "W":
+            elems += op[3]
+            last = {}
+            continue
+        if op[0] != "Q":
+            continue
+        order, k1, k2, t1, t2, sids = op[1]
+        if not o.startswith("R"):
+            return ("violation", "sidx query failed: " + o[:200])
+        got = o.split()[1:]
+        if len(set(got)) != len(got):
+            return ("violation", "sidx query returned an element twice: " + o[:200])
+        may = {"%d:%s:%d" % (e[1], e[2], e[0]) for e in elems if e[0] in sids and (k1 is None or e[1] >= k1) and (k2 is None or e[1] <= k2)}
+        must = {"%d:%s:%d" % (e[1], e[2], e[0]) for e in elems if e[0] in sids and (k1 is None or e[1] >= k1) and (k2 is None or e[1] <= k2)
+                and (t1 is None or e[3] >= t1) and (t2 is None or e[3] <= t2)}
+        gs = set(got)
+        if not gs <= may:
+            return ("violation", "sidx query returned an element outside the key range / series or never written: %s" % sorted(gs - may)[:3])
+        if not must <= gs:
+            return ("violation", "sidx query with timestamp range [%s, %s] lost element(s) whose timestamp is inside: %s" % (t1, t2, sorted(must - gs)[:3]))
+        ks = [int(x.split(":")[0]) for x in got]
+        if any((a > b) if order == "asc" else (a < b) for a, b in zip(ks, ks[1:])):
+            return ("violation", "sidx result not in %s key order: %s" % (order, o[:200]))
+        prev = last.get(op[1])
+        if prev is not None:
+            if not prev <= gs:
+                return ("violation", "sidx answer lost element(s) across a flush/merge step: %s" % sorted(prev - gs)[:3])
+            if t1 is None and t2 is None and prev != gs:
+                return ("violation", "sidx answer (no timestamp filter) changed across a flush/merge step")
+        last[op[1]] = gs
+    return None
+
+
+def sidx_compare(g, l):
+    go, lo = base.split_out(g), base.split_out(l)
+    if len(go) != len(lo):
+        return False
+    for a, b in zip(go, lo):
+        if a == b:
+            continue
+        if not (a.startswith("R") and b.startswith("R")):
+            return False
+        if sorted(a.split()[1:]) != sorted(b.split()[1:]):
+            return False
+    return True
+
+
 def case_huge(rng, kind):
     """uncompressed block size limit (2 MiB): few rows with large values"""
     sid = 3
@@ -273,10 +468,11 @@ class C03(base.StoreSpec):
     theorems = ["Banyan.C03." + t for t in [
         "flush_content", "mergeParts_spec", "merged_part_query", "maintenance_invisible", "maintenance_step_invisible",
         "query_after_maintenance", "conflict_rename_total",
+        "sidx_exact_covered", "sMerge_wf", "sidx_merge_monotone", "sidx_merge_preserves", "sidx_merge_legacy_counterexample",
     ]] + ["Banyan.C02." + t for t in ["mergeStream_spec", "mergeTwoBlocks_spec", "mergeLoop_terminates", "queryMerge_spec",
                                       "version_wins_any_history", "version_wins_order_independent"]] + [
         "Banyan.Tie.C03." + t for t in ["maxLen_tie", "maxSize_tie", "init_guard_tie", "merge_blocks_shape_tie", "typed_separator_tie",
-                                        "typed_suffix_tie"]]
+                                        "typed_suffix_tie", "sidx_hull_tie", "sidx_overlaps_tie"]]
     lean_driver = "C03"
     extract_also = ["C02"]
     counts = {"quick": 900, "thorough": 12000}
@@ -301,13 +497,13 @@ class C03(base.StoreSpec):
             "(fan-in 1-8 over memory or file parts) all 2-3 registered queries (projections incl. the union and the conflicting-type "
             "view, all three orders) are re-issued; `big`: series of maxBlockLength-1..+2 rows with touching/overlapping/interleaved "
             "parts; `huge`: blocks crossing the 2 MiB uncompressed limit; `tail`: 3-4 parts of one series in one merge, the first two exceeding maxBlockLength, all string values distinct (plain encoding); `mtie`: equal (series, ts, version) with different values; "
-            "`fset`/`ftype`: the two known classes F10/F53; non-trivial = case with at least one maintenance step between two answers")
+            "`many`: 3000-6000 series in one part (several primary blocks), two parts with different time ranges; `sidx`: real sidx, 2-5 written parts (elements with own timestamps, part range = hull / wider / absent), flush and merge of any flushed subsets, 2-4 registered queries (key range, timestamp range, series, order) re-issued after every step; `fset`/`ftype`: the two known classes F10/F53; non-trivial = case with at least one maintenance step between two answers")
 
     def cases(self, rng, n):
         out = []
         nbig = 4 if n < 5000 else 40
         nhuge = 2 if n < 5000 else 10
-        for _ in range(n - 2 * nbig - 2 - nhuge - 4):
+        for _ in range(n - 2 * nbig - 2 - nhuge - 4 - (253 if n < 5000 else 4012)):
             r = rng.random()
             if r < 0.8:
                 out.append(case_maint(rng, "maint"))
@@ -322,17 +518,31 @@ class C03(base.StoreSpec):
         for _ in range(nbig + 2):
             out.append(case_split_tail(rng, "tail"))
         out += [case_fset(rng), case_fset(rng), case_ftype(rng), case_ftype(rng)]
+        for _ in range(3 if n < 5000 else 12):
+            out.append(case_many_series(rng, "many"))
+        for _ in range(250 if n < 5000 else 4000):
+            out.append(case_sidx(rng))
         return out
 
     def directed(self, rng, seeds, n):
-        return list(seeds[:50]) + [case_maint(rng, "maint", steps=rng.randint(2, 8)) for _ in range(min(n, 6000))]
+        return (list(seeds[:50]) + [case_maint(rng, "maint", steps=rng.randint(2, 8)) for _ in range(min(n, 4000))] +
+                [case_sidx(rng) for _ in range(min(n, 4000))])
+
+    def shrink(self, line, still_fails):
+        if line.startswith("sidx"):
+            return line
+        return base.StoreSpec.shrink(self, line, still_fails)
 
     def compare(self, line, g, l):
+        if line.startswith("sidx"):
+            return sidx_compare(g, l)
         if line.startswith("fset ") or line.startswith("ftype "):
             return True    # known classes: the model is of the intended behaviour
         return base.compare_outputs(line, g, l, self.norm)
 
     def oracle(self, line, g):
+        if line.startswith("sidx"):
+            return sidx_oracle(line, g)
         rp = Replay(line)
         outs = base.split_out(g)
         if len(outs) != len(rp.events):
@@ -373,6 +583,8 @@ class C03(base.StoreSpec):
         return known
 
     def nontrivial(self, line, g):
+        if line.startswith("sidx"):
+            return hash(line) if (" ; M" in line or " ; F " in line) else None
         rp = Replay(line)
         seen_q = False
         for ev in rp.events:
